@@ -65,6 +65,12 @@ theorem guards_inhabited :
   simp only [tab1, Bool.and_eq_true] at h
   exact ⟨h.1.1.1.1.1.1.2, h.1.1.1.1.1.2, h.1.1.1.1.2, h.1.1.1.2, h.1.1.2, h.1.2, h.2⟩
 
+/-- the hypothesis of `identity_loss_pinned_binaryQ / binarySelf` holds of the contexts the checks
+    run with: exact equality at ℚ and `math.isclose` at `Float` read scale, offset and dimension only -/
+example : UeqBlindF qCtx := fun _ _ _ _ => rfl
+example (C : FCtx Float) (h : C.ueq = UnitV.eqFloat) : UeqBlindF C := by
+  intro a b ca cb; rw [h]; rfl
+
 end witnesses
 
 end Unyt.C11
